@@ -764,6 +764,16 @@ def r9_desugar_iterators(srcs, stats):
             m2 = re.match(r'\s*;', src[pc:]) if pc else None
             if not m2: continue
             edits.append((x.start(), pc + m2.end(), '/* R12: println! dropped */' + nl(x.start(), pc + m2.end()), 'R12_println_dropped'))
+        # j: `for (_, V) in M.iter_mut() { BODY }` (HashMap::iter_mut has no vstd specification) => the keys are collected first, then every entry is
+        #    visited through get_mut: `{ let r9_keys = (keys of M, cloned); for r9_key in r9_keys.iter() { if let Some(V) = M.get_mut(r9_key) { BODY } } }`
+        for x in re.finditer(r'\bfor\s*\(\s*_\s*,\s*(\w+)\s*\)\s+in\s+' + PLACE + r'\.iter_mut\(\)\s*\{', src):
+            if not live(x.start()): continue
+            V, E = x.group(1), x.group(2)
+            bo = x.end() - 1
+            try: bc = rsitems.match_brace(src, mask, bo)      # index just past the closing brace
+            except Exception: continue
+            edits.append((x.start(), x.end(), '{ let r9_keys = ({ let mut r9_v = Vec::new(); for r9_kv in %s.iter() { r9_v.push(r9_kv.0.clone()); } r9_v }); for r9_key in r9_keys.iter() { if let Some(%s) = %s.get_mut(r9_key) {' % (E, V, E) + nl(x.start(), x.end()), 'R9j_iter_mut'))
+            edits.append((bc - 1, bc, '} } }', 'R9j_close'))
         # R14: the f32 sum of a slice: `E.iter().sum::<f32>()`, and `E.iter().sum()` where it is the argument of `float_stack.push(..)` =>
         #      `({ let mut r14_s: f32 = crate::spec::f32_sum_identity(); for r14_x in E.iter() { r14_s = r14_s + *r14_x; } r14_s })`.
         #      f32_sum_identity() is a wrapper whose body IS std's empty sum (the self tests add the same one-line function to the scratch crate);
@@ -796,7 +806,7 @@ def r9_desugar_iterators(srcs, stats):
         pieces = []; pos = 0
         for a, b, t, k in edits:
             pieces.append(src[pos:a]); pieces.append(t); pos = b
-            stats[k] = stats.get(k, 0) + 1
+            if k != 'R9j_close': stats[k] = stats.get(k, 0) + 1
         pieces.append(src[pos:])
         out[m_] = ''.join(pieces)
     return out
